@@ -244,6 +244,9 @@ impl Monitor for Mon {
             // the statement does not say what happens to a payload once the uplink counter space is
             // exhausted; acceptance and counters stay checked above
             stats.bump("probe.payload-check-skipped-at-expiry");
+        } else if w.env.borrow().cfg.lazy_app {
+            // the application leaves downlinks in a one-entry queue: what happens to the overflow is its own business
+            stats.bump("probe.payload-check-skipped-lazy-application");
         } else if !matches!(rec.result, crate::dut::OpResult::RadioErr) {
             let mut got: Vec<(u8, Vec<u8>)> = rec.downlinks.iter().filter(|(_, d)| !d.is_empty()).cloned().collect();
             let mut want = expected_dl.clone();
